@@ -1,5 +1,5 @@
 (* C18 — Telstate stream resolution and flag-stream upgrade.  Statements only. *)
-From Coq Require Import ZArith List Bool String.
+From Coq Require Import ZArith List Bool String Permutation.
 From KV Require Import Base.Sx Base.Str Gen.Generated Model.Telstate Proofs.TelstateP.
 Import ListNotations.
 Open Scope string_scope.
@@ -15,7 +15,7 @@ Theorem C18_telstate_keys :
   /\ ts_inherit_key = "inherit"%string /\ fl_type_key = "stream_type"%string /\ fl_src_key = "src_streams"%string
   /\ fl_archived_key = "sdp_archived_streams"%string /\ ts_sep = "_"%string
   /\ ds_chunk_info_key = "chunk_info"%string /\ fl_chunk_info_key = "chunk_info"%string
-  /\ ds_dumps_array = "correlator_data"%string.
+  /\ ds_dumps_array = "correlator_data"%string /\ ci_prefix_key = "chunk_name"%string.
 Proof. exact telstate_keys. Qed.
 Print Assumptions C18_telstate_keys.
 
@@ -71,6 +71,46 @@ Theorem C18_sensor_most_specific : forall ps st n, n <> ""%string ->
 Proof. exact sensor_most_specific. Qed.
 Print Assumptions C18_sensor_most_specific.
 
+(* the rank is computed by the code as prefixes.index(key[:len(key) - len(sensor_name)]): that IS the index of the
+   first prefix in view order that fits the key (so the comparison of ranks compares namespaces, not key lengths) *)
+Theorem C18_sensor_rank_as_coded : forall ps k r,
+  key_rank ps k = Some r -> rank_in_code ps k (shorten_key ps k) = Some r.
+Proof. exact rank_in_code_ok. Qed.
+Print Assumptions C18_sensor_rank_as_coded.
+
+(* ... which is the namespace-by-namespace reading of the property: the sensor n is the mutable key <p><n> of the
+   FIRST namespace p of the view that has one (immutable keys are passed over), absent if none has - for every
+   store with distinct keys, every view and every name that is not aliased (see [canonical]) *)
+Theorem C18_sensor_eq_spec : forall ps st n, n <> ""%string -> NoDup (map e_key st) -> canonical ps st n ->
+  sensor_key ps st n = spec_sensor st ps n.
+Proof. exact sensor_eq_spec. Qed.
+Print Assumptions C18_sensor_eq_spec.
+
+(* the order in which telstate.keys() lists the keys is immaterial *)
+Theorem C18_sensor_order_independent : forall ps st st' n, n <> ""%string -> Permutation st st' ->
+  sensor_key ps st n = sensor_key ps st' n.
+Proof. exact sensor_order_independent. Qed.
+Print Assumptions C18_sensor_order_independent.
+
+(* the sensor NAMES of the data set: exactly the non-empty shortened names of the mutable keys; an immutable key, a
+   key that equals a prefix and a key under no prefix of the view never appear *)
+Theorem C18_sensor_names : forall ps st n,
+  In n (sensor_names ps st) <-> n <> ""%string /\ exists e, In e st /\ owns ps n e = true.
+Proof. exact sensor_names_iff. Qed.
+Print Assumptions C18_sensor_names.
+
+(* F-C18x-1 (repaired in the katdal worktree): the type of a key used to be asked of the view, which resolves the
+   full key through its prefixes again - witnesses on which that loop dropped a sensor the property demands *)
+Theorem C18_sensor_type_refuted_before_fix :
+  let ps := spec_prefixes "cb" ["s"] in
+  let st := [mkEntry "cb_s_foo" false 1; mkEntry "s_foo" true 2] in
+  spec_sensor st ps "foo" = Some "s_foo"%string /\ sensor_key_viewtyped ps st "foo" = None
+  /\ sensor_key ps st "foo" = Some "s_foo"%string
+  /\ sensor_key_viewtyped ["cb_s_"; "cb_"; "s_"]%string [mkEntry "s_foo" true 2] "foo" = None
+  /\ sensor_key ["cb_s_"; "cb_"; "s_"]%string [mkEntry "s_foo" true 2] "foo" = Some "s_foo"%string.
+Proof. exact sensor_type_refuted_before_fix. Qed.
+Print Assumptions C18_sensor_type_refuted_before_fix.
+
 (* before the repair the LAST key in key order won, so a less specific namespace could win (F6, fixed):
    the witness on which the old table and the new one differ *)
 Theorem C18_sensor_refuted_before_fix :
@@ -93,18 +133,47 @@ Theorem C18_wrong_type_refused : forall ty, check_stream_type ty = true <-> ty =
 Proof. exact wrong_type_refused. Qed.
 Print Assumptions C18_wrong_type_refused.
 
-(* flags upgrade: only sdp.flags streams whose src_streams contains the opened stream count; the last such
-   stream wins; any of them with a different channel/baseline shape is an error — for every archived list *)
+(* flags upgrade, for every archived list: streams that are not sdp.flags streams of the opened stream are
+   ignored; the FIRST defective one (incompatible channel/baseline shape = 1 ValueError; no sources / no chunk info
+   = 2 KeyError) is the error; otherwise the LAST one replaces the flags; none = own flags *)
 Theorem C18_flags_upgrade_rule : forall stream archived cur,
-  upgrade_flags stream cur archived = spec_upgrade stream cur archived.
+  upgrade_flags stream cur archived =
+  let ss := statuses stream (c_rest cur) archived in
+  match find is_err ss with
+  | Some r => r
+  | None => match rev ss with r :: _ => r | [] => Ok cur end
+  end.
 Proof. exact flags_upgrade_rule. Qed.
 Print Assumptions C18_flags_upgrade_rule.
 
 (* which archived streams count: type sdp.flags AND the opened stream among the sources *)
 Theorem C18_flag_source_iff : forall stream f,
-  is_flag_source stream f = true <-> f_type f = Some "sdp.flags"%string /\ In stream (f_src f).
+  is_flag_source stream f = true <-> f_type f = Some "sdp.flags"%string /\ exists l, f_src f = Some l /\ In stream l.
 Proof. exact flag_source_iff. Qed.
 Print Assumptions C18_flag_source_iff.
+
+Theorem C18_flag_candidate_ignored_iff : forall stream rest f,
+  candidate_status stream rest f = None <->
+  f_type f <> Some "sdp.flags"%string \/ exists l, f_src f = Some l /\ ~ In stream l.
+Proof. exact candidate_ignored_iff. Qed.
+Print Assumptions C18_flag_candidate_ignored_iff.
+
+(* what must NOT change *)
+Theorem C18_flags_ignore_other_streams : forall stream cur archived,
+  (forall f, In f archived -> candidate_status stream (c_rest cur) f = None) ->
+  upgrade_flags stream cur archived = Ok cur.
+Proof. exact upgrade_ignores_others. Qed.
+Print Assumptions C18_flags_ignore_other_streams.
+
+Theorem C18_flags_keep_shape : forall stream archived cur c,
+  upgrade_flags stream cur archived = Ok c -> c_rest c = c_rest cur.
+Proof. exact upgrade_keeps_shape. Qed.
+Print Assumptions C18_flags_keep_shape.
+
+Theorem C18_flags_errors : forall stream archived cur e,
+  upgrade_flags stream cur archived = Err e -> e = 1%Z \/ e = 2%Z.
+Proof. exact upgrade_err. Qed.
+Print Assumptions C18_flags_errors.
 
 (* differing dump counts: every array is extended to the longest one by one-dump phantom chunks appended
    after its own (unaltered) chunks *)
@@ -128,7 +197,7 @@ Theorem C18_span_however_opened : forall u stream cur archived, (0 <= c_dumps cu
          then spec_upgrade stream cur archived else Ok cur) with
   | Err e => Err e
   | Ok c => let n := Z.max (c_dumps cur) (c_dumps c) in
-            Ok (mkOpened (match t with Some k => k | None => n end) (if s then Some (n, c_id c) else None))
+            Ok (mkOpened (match t with Some k => k | None => n end) (if s then Some (n, c_id c, c_from c) else None))
   end.
 Proof. exact span_however_opened. Qed.
 Print Assumptions C18_span_however_opened.
@@ -146,3 +215,74 @@ Theorem C18_open_refines_spec : forall m st vals kwcb urlcb kwsn urlsn, dumps_no
   open_url m st vals kwcb urlcb kwsn urlsn = spec_open_url m st vals kwcb urlcb kwsn urlsn.
 Proof. exact open_url_spec. Qed.
 Print Assumptions C18_open_refines_spec.
+
+(* EVERY entry point (from_url, open_data_source, katdal.open of a '*.rdb' name or of a URL): the scheme dispatch,
+   the handler around load_from_file and the re-raise of open_data_source, as generated from the source, give: a
+   file that cannot be read (OSError) or parsed (RdbParseError) and an unknown scheme are DataSourceNotFound (5);
+   a readable file is opened exactly as spec_open_url says *)
+Theorem C18_entry_points_refine_spec : forall h scheme l m st vals kwcb urlcb kwsn urlsn, dumps_nonneg vals ->
+  open_how h scheme l m st vals kwcb urlcb kwsn urlsn = spec_open_how h scheme l m st vals kwcb urlcb kwsn urlsn.
+Proof. exact open_how_spec. Qed.
+Print Assumptions C18_entry_points_refine_spec.
+
+Theorem C18_unreadable_not_found : forall h l m st vals kwcb urlcb kwsn urlsn,
+  (l = Raises "OSError" \/ l = Raises "RdbParseError") ->
+  (forall e s, h = HOpen e s -> (e || s)%bool = true) ->
+  open_how h "file" l m st vals kwcb urlcb kwsn urlsn = Err 5.
+Proof. exact unreadable_not_found. Qed.
+Print Assumptions C18_unreadable_not_found.
+
+Theorem C18_unknown_scheme_not_found : forall h scheme l m st vals kwcb urlcb kwsn urlsn,
+  ~ In scheme ["file"; "redis"; "http"; "https"]%string ->
+  (forall e s, h = HOpen e s -> (e || s)%bool = true) ->
+  open_how h scheme l m st vals kwcb urlcb kwsn urlsn = Err 5.
+Proof. exact unknown_scheme_not_found. Qed.
+Print Assumptions C18_unknown_scheme_not_found.
+
+(* what must NOT change: a readable source is never "not found" - its own errors (wrong stream type, missing ids,
+   incompatible flags) keep their class - and the outer entry points add nothing to from_url *)
+Theorem C18_readable_never_not_found : forall h m st vals kwcb urlcb kwsn urlsn,
+  (forall e s, h = HOpen e s -> (e || s)%bool = true) ->
+  open_how h "file" Loaded m st vals kwcb urlcb kwsn urlsn = open_url m st vals kwcb urlcb kwsn urlsn
+  /\ open_how h "file" Loaded m st vals kwcb urlcb kwsn urlsn <> Err 5.
+Proof. exact readable_never_not_found. Qed.
+Print Assumptions C18_readable_never_not_found.
+
+(* visdatav4._relative_view (attributes of a cal / other stream "relative to every L0 namespace"): the prefixes
+   are <p><name>_ for the prefixes p of the view IN THE SAME ORDER, and nothing else (exclusive) ... *)
+Theorem C18_relative_view_order : forall ps name, ps <> [] ->
+  relative_view ps name = Some (map (fun p => ((p ++ name) ++ sep)%string) ps).
+Proof. exact relative_view_order. Qed.
+Print Assumptions C18_relative_view_order.
+
+(* ... so attribute k of that stream is attribute <name>_k as seen through the view of the opened stream: taken
+   from the most specific namespace that defines it (C18_attr_most_specific applies) *)
+Theorem C18_relative_lookup : forall st name k ps,
+  lookup st (spec_relative_view ps name) k = lookup st ps (name ++ sep ++ k)%string.
+Proof. exact relative_lookup. Qed.
+Print Assumptions C18_relative_lookup.
+
+(* "unless disabled": with upgrade_flags=False the archived streams are not looked at at all - no error even for an
+   incompatible one, the stream's own flags and its own number of dumps, in every way of opening that reads them *)
+Theorem C18_upgrade_disabled_keeps_own_flags : forall s t stream cur archived, (0 <= c_dumps cur)%Z -> s = true \/ t = None ->
+  open_source (mkMode s (Some false) t) stream cur archived =
+  Ok (mkOpened (match t with Some k => k | None => c_dumps cur end)
+               (if s then Some (c_dumps cur, c_id cur, c_from cur) else None)).
+Proof. exact upgrade_disabled. Qed.
+Print Assumptions C18_upgrade_disabled_keeps_own_flags.
+
+(* laws: the archived list composes piecewise; stacked views fall back; aligning is idempotent *)
+Theorem C18_upgrade_composes : forall stream a b cur,
+  upgrade_flags stream cur (a ++ b) =
+  match upgrade_flags stream cur a with Ok c => upgrade_flags stream c b | Err e => Err e end.
+Proof. exact upgrade_composes. Qed.
+Print Assumptions C18_upgrade_composes.
+
+Theorem C18_view_stacking_falls_back : forall st k ps1 ps2,
+  lookup st (ps1 ++ ps2) k = match lookup st ps1 k with Some v => Some v | None => lookup st ps2 k end.
+Proof. exact lookup_app. Qed.
+Print Assumptions C18_view_stacking_falls_back.
+
+Theorem C18_align_idempotent : forall arrays, align_chunk_info (align_chunk_info arrays) = align_chunk_info arrays.
+Proof. exact align_idempotent. Qed.
+Print Assumptions C18_align_idempotent.
